@@ -386,6 +386,39 @@ pub fn probe(w: &mut World, t: &mut TraceOut) -> bool {
     true
 }
 
+/// Epilogue for histories with resizes: with everything idle, shrink by one and probe again
+/// (a shrink that finds every object idle and every token free can collect exactly).
+pub fn shrink_probe(w: &mut World, t: &mut TraceOut) -> bool {
+    if w.pool.is_closed() {
+        return true;
+    }
+    let cur = w.pool.status().max_size;
+    if cur < 2 {
+        return true;
+    }
+    t.lines.push("# shrink-idle".into());
+    if !start_and_run(w, Spec::Resize(cur - 1), t) {
+        return false;
+    }
+    t.lines.push("# probe2".into());
+    for _ in 0..8 {
+        let before = w.out_ids().len();
+        if !start_and_run(w, Spec::Get(Tmo::Zero, Tmo::None, Tmo::None), t) {
+            return false;
+        }
+        if w.out_ids().len() == before {
+            break;
+        }
+    }
+    t.lines.push("# probe2-end".into());
+    for id in w.out_ids() {
+        if !start_and_run(w, Spec::Ret(id), t) {
+            return false;
+        }
+    }
+    true
+}
+
 /// Drive op `i` with `choose(label, suspended, enabled)` until it is done, blocked, or the
 /// chooser says stop.
 fn drive(
@@ -653,6 +686,9 @@ pub fn gen_trace(seed: u64, p: &Profile) -> TraceOut {
         return fail(w, t);
     }
     if p.probe && !probe(&mut w, &mut t) {
+        return fail(w, t);
+    }
+    if p.probe && p.w_ops[3] > 0 && !shrink_probe(&mut w, &mut t) {
         return fail(w, t);
     }
     w.finish();
